@@ -41,7 +41,7 @@ def pairings(A, rng, limit):
 
 def all_cases(ctx):
     cs = []
-    base = F.f_shape() + F.f_rand(ctx.seed, 20 if ctx.quick else 150) + F.renamed([c for c in F.f_unit(3) if c[0][0] == "pair"][:6], "unroll2") + F.renamed(F.f_shape()[:4], "unroll")
+    base = F.f_shape() + F.reordered(F.f_shape()[:8]) + F.f_rand(ctx.seed, 20 if ctx.quick else 150) + F.renamed([c for c in F.f_unit(3) if c[0][0] == "pair"][:6], "unroll2") + F.renamed(F.f_shape()[:4], "unroll")
     for cid, spec in base:
         cs.append((("unroll",) + cid, ("unroll", spec)))
     for cid, spec, d, q in F.seq_circuits():
